@@ -19,7 +19,7 @@ integer functions symbolically:
   * the obligations are   pre /\ path => goal , one SMT query each.
 
 Outside the subset (anything else raises Unsupported -> exit 2): loops, floating point,
-`& | ^` other than with literal masks 2^k-1 / ~(2^k-1), variable shifts, clz, pointers other than reference
+`& | ^` other than with literal masks 2^k-1 / ~(2^k-1), pointers other than reference
 parameters of inlined callees.
 """
 import re, os, subprocess, tempfile, time, concurrent.futures, shutil
@@ -45,11 +45,14 @@ def lit(v):
     return str(v) if v >= 0 else '(- %d)' % (-v)
 
 
+# 2^n for 0 <= n <= 64 as a case table: variable shift distances and clz results are small integers the solver splits on
+POW2 = "(define-fun pow2 ((n Int)) Int " + ''.join('(ite (= n %d) %d ' % (i, 1 << i) for i in range(0, 65)) + '0' + ')' * 65 + ")\n"
+
 PRELUDE = '''(set-logic ALL)
 (define-fun tdiv ((a Int) (b Int)) Int (ite (>= a 0) (ite (> b 0) (div a b) (- (div a (- b)))) (ite (> b 0) (- (div (- a) b)) (div (- a) (- b)))))
 (define-fun tmod ((a Int) (b Int)) Int (- a (* b (tdiv a b))))
 (define-fun b2i ((b Bool)) Int (ite b 1 0))
-'''
+''' + POW2
 
 
 def _tok(s):
@@ -652,12 +655,23 @@ class IntWP:
         raise Unsupported('arith op ' + op)
 
     def shift(self, op, a, bnode, t, n, fr, path, a_t):
-        b = self.expr(bnode, fr, path)
+        b = fold(self.expr(bnode, fr, path))
         m = re.match(r'^\d+$', b)
-        if not m:
-            raise Unsupported('variable shift')
-        c = int(b)
         bits = SIZEOF[t.base] * 8
+        if not m:
+            # symbolic distance: x << n == x * 2^n, x >> n == floor(x / 2^n), with 2^n the case table pow2
+            self.oblige('undefined-shift', path, '(and (<= 0 %s) (< %s %d))' % (b, b, bits), '%s: shift distance in [0, %d)' % (self.where(n, fr), bits))
+            p2 = self.define('p2', '(pow2 %s)' % b)
+            if op == '<<':
+                if t.base in SIGNED_INT:
+                    lo, hi = rng(t.base)
+                    self.oblige('undefined-shift', path, '(>= %s 0)' % a, '%s: left shift of negative value' % self.where(n, fr))
+                    term = self.define('e', '(* %s %s)' % (a, p2))
+                    self.oblige('overflow', path, '(<= %s %s)' % (term, lit(hi)), '%s: signed << overflow' % self.where(n, fr))
+                    return term
+                return self.define('e', self.wrap('(* %s %s)' % (a, p2), t.base))
+            return self.define('e', '(div %s %s)' % (a, p2))
+        c = int(b)
         if c >= bits:
             self.oblige('undefined-shift', path, 'false', '%s: shift distance %d too large' % (self.where(n, fr), c))
             return '0'
@@ -878,6 +892,14 @@ class IntWP:
             return '(b2i (not (= %s %s)))' % (p, r)
         if name == '__builtin_is_constant_evaluated':
             return '0'
+        if name in ('__builtin_clz', '__builtin_clzl', '__builtin_clzll'):
+            # c = clz(v) for v > 0 is the unique c with 2^(B-1-c) <= v < 2^(B-c); v == 0 is undefined behaviour (obligation)
+            B = {'__builtin_clz': 32, '__builtin_clzl': 64, '__builtin_clzll': 64}[name]
+            v = self.expr(args[0], fr, path)
+            self.oblige('clz-of-zero', path, '(not (= %s 0))' % v, '%s: %s(0)' % (self.where(n, fr), name))
+            c = self.fresh('clz')
+            self.assumes.append('(=> (and %s (> %s 0)) (and (<= 0 %s) (<= %s %d) (<= (pow2 (- %d %s)) %s) (< %s (pow2 (- %d %s)))))' % (path, v, c, c, B - 1, B - 1, c, v, v, B, c))
+            return c
         raise Unsupported('builtin ' + name)
 
     def apply_contract(self, mg, d, vals, path):
